@@ -1,6 +1,112 @@
-(** C06 — Multi-file block reads return the exact newest-wins merge.  Property theorems only. *)
-From Verif Require Import Base.Prelude Model.C37 Model.C06 Proofs.C06.
+(** C06 — Multi-file block reads return the exact newest-wins merge.  Property theorems only.
 
-Theorem C06_mark_whole_block_is_read : forall (l : loc Z), is_read (mark_read (l_min l) (l_max l) l) = true.
-Proof. exact is_read_mark_self. Qed.
-Print Assumptions C06_mark_whole_block_is_read.
+    FULL STATEMENT (not proved in full; kept here as the goal):
+
+      Theorem C06_keycursor_spec : forall (fs : list (tfile V)) t asc mrg,
+        mrg = arr_merge \/ mrg = vals_merge ->
+        Forall file_wf fs ->                         (* per file: blocks non-empty, strictly increasing inside,
+                                                        ordered and non-overlapping, entry = first/last timestamp;
+                                                        arbitrary overlap ACROSS files; any tombstone ranges *)
+        MinInt64 < t < MaxInt64 ->                    (* at t = MinInt64 the code's [t-1] wraps *)
+        (length (locations fs t asc) <= 12)%nat ->     (* sort.Sort = insertion sort (see Model/C06.v);
+                                                        by [C06_sort_overlapping_in_generation_order] the
+                                                        bound is not needed for the model's insertion sort *)
+        exists bs, run_cursor mrg fs t asc = Some bs /\
+                   flatten asc bs = live_points_newest_wins fs t asc.
+
+    What is proved below, for ALL layouts (unbounded), all seeks, both directions, both value families:
+      - the SAFETY half ([C06_returned_points_sound_partial]): every returned block is non-empty and
+        strictly increasing; every returned point is a point of some file's block, is not covered by any
+        tombstone of that file, and is not before (after, if descending) the seek time;
+      - TERMINATION ([C06_cursor_loop_terminates]): the ReadBlock/Next loop reaches an empty block within
+        (number of points + 1) iterations;
+      - the ORDER fact the newest-wins half rests on ([C06_sort_overlapping_in_generation_order]):
+        insertion sort with the non-transitive comparator leaves any two time-overlapping locations
+        in generation order (the older file first), for any number of locations.
+    The COMPLETENESS half (every live point is returned, exactly once, with the newest value, blocks in
+    order) is proved only on a finite family ([C06_keycursor_spec_small_partial], by exhaustive
+    evaluation, bound in the statement); beyond it, it is only tested: the correspondence check
+    compares the real cursor with the mirror AND the oracle on generated layouts, and the thorough
+    tier enumerates all small layouts on the real code as a search for a counterexample. *)
+From Verif Require Import Base.Prelude Model.C37 Proofs.C37 Model.C06 Proofs.C06 Proofs.C06_sort Proofs.C06_fuel Proofs.C06_small.
+Local Open Scope Z_scope.
+
+Theorem C06_returned_points_sound_partial :
+  forall (V : Type) (fs : list (tfile V)) (t : Z) (asc : bool) (bs : list (arr V)),
+    files_sorted fs ->
+    (run_cursor arr_merge fs t asc = Some bs \/ run_cursor vals_merge fs t asc = Some bs) ->
+    Forall (fun v => v <> [] /\ ssorted v /\
+              Forall (fun p => exists f b, In f fs /\ In b (f_blocks f) /\ In p (b_data b) /\
+                                 dead (f_tombs f) p = false /\
+                                 (if asc then ~ (MinInt64 <= tm p <= sub1_64 t)
+                                  else ~ (add1_64 t <= tm p <= MaxInt64))) v) bs.
+Proof.
+  intros V fs t asc bs Hs [H|H].
+  - exact (run_cursor_sound arr_merge (@merge_sorted V) (@arr_merge_In_weak V) fs t asc bs Hs H).
+  - exact (run_cursor_sound vals_merge (@vals_merge_sorted V) (@vals_merge_In_weak V) fs t asc bs Hs H).
+Qed.
+Print Assumptions C06_returned_points_sound_partial.
+
+(** The consumer loop [ReadBlock; Next] always reaches an empty block: the model's fuel
+    (number of points in the files + 1) is never exhausted, for ANY merge function. *)
+Theorem C06_cursor_loop_terminates :
+  forall (V : Type) (mrg : arr V -> arr V -> arr V) (fs : list (tfile V)) (t : Z) (asc : bool),
+    files_sorted fs -> run_cursor mrg fs t asc <> None.
+Proof. intros V mrg fs t asc H. exact (run_cursor_total mrg fs t asc H). Qed.
+Print Assumptions C06_cursor_loop_terminates.
+
+Theorem C06_sort_overlapping_in_generation_order :
+  forall (V : Type) (fs : list (tfile V)) (t : Z) (asc : bool),
+    Forall (fun f => blocks_ordered (f_blocks f)) fs ->
+    pairwise (fun y x => overlaps y (l_min x) (l_max x) = true -> (l_file y < l_file x)%nat)
+             (k_seeks (new_cursor fs t asc)).
+Proof. intros V fs t asc H. exact (seeks_newer_after fs t asc H). Qed.
+Print Assumptions C06_sort_overlapping_in_generation_order.
+
+Theorem C06_sort_is_permutation :
+  forall (V : Type) (asc : bool) (l : list (loc V)), Permutation.Permutation (sort_locs asc l) l.
+Proof. intros. apply sort_locs_perm. Qed.
+Print Assumptions C06_sort_is_permutation.
+
+Theorem C06_keycursor_spec_small_partial :
+  forall (fs : list (tfile Z)) (t : Z) (asc : bool),
+    In fs small_two \/ In fs small_three -> -1 <= t <= 4 ->
+    exists bs, run_cursor arr_merge fs t asc = Some bs /\ run_cursor vals_merge fs t asc = Some bs /\
+               flatten asc bs = live_points_newest_wins fs t asc.
+Proof. exact small_layouts_spec. Qed.
+Print Assumptions C06_keycursor_spec_small_partial.
+
+(** Without the restriction on the seek time the statement is FALSE for the code as written:
+    [locations] computes [readMax = t-1] (ascending) / [readMin = t+1] (descending) in int64, so a
+    seek at MinInt64 / MaxInt64 marks EVERYTHING read and the cursor returns nothing.  Replayed on the
+    real KeyCursor (replays/C06-seek-int64-extreme.json): it returns no block either. *)
+Theorem C06_seek_at_int64_extreme_refuted :
+  exists (fs : list (tfile Z)),
+    forallb file_wf_b fs = true /\
+    run_cursor arr_merge fs MinInt64 true = Some [] /\ live_points_newest_wins fs MinInt64 true <> [] /\
+    run_cursor arr_merge fs MaxInt64 false = Some [] /\ live_points_newest_wins fs MaxInt64 false <> [].
+Proof.
+  exists [ {| f_blocks := [ {| b_min := 0; b_max := 2; b_data := [(0, 10); (1, 10); (2, 10)] |} ];
+             f_tombs := []; f_tmin := 0; f_tmax := 2 |} ].
+  vm_compute. repeat split; discriminate.
+Qed.
+Print Assumptions C06_seek_at_int64_extreme_refuted.
+
+(** Non-vacuity: two overlapping files with a tombstone each; the cursor returns the newest-wins merge
+    in both directions, and the hypotheses of the theorems hold for this layout. *)
+Example C06_nonvacuous :
+  let f1 := {| f_blocks := [ {| b_min := 0; b_max := 4; b_data := [(0, 1); (2, 1); (4, 1)] |};
+                             {| b_min := 6; b_max := 8; b_data := [(6, 1); (8, 1)] |} ];
+               f_tombs := [(2, 2)]; f_tmin := 0; f_tmax := 10 |} in
+  let f2 := {| f_blocks := [ {| b_min := 1; b_max := 3; b_data := [(1, 2); (2, 2); (3, 2)] |};
+                             {| b_min := 7; b_max := 9; b_data := [(7, 2); (8, 2); (9, 2)] |} ];
+               f_tombs := [(8, 9)]; f_tmin := 0; f_tmax := 10 |} in
+  forallb file_wf_b [f1; f2] = true /\
+  run_cursor arr_merge [f1; f2] 0 true
+    = Some [[(0, 1); (1, 2); (2, 2); (3, 2); (4, 1)]; [(6, 1); (7, 2); (8, 1)]] /\
+  run_cursor vals_merge [f1; f2] 9 false
+    = Some [[(6, 1); (7, 2); (8, 1)]; [(1, 2); (2, 2); (3, 2); (4, 1)]; [(0, 1)]] /\
+  live_points_newest_wins [f1; f2] 0 true
+    = [(0, 1); (1, 2); (2, 2); (3, 2); (4, 1); (6, 1); (7, 2); (8, 1)] /\
+  (N.of_nat (length small_two) = 35301 /\ N.of_nat (length small_three) = 2744)%N.
+Proof. vm_compute. repeat split; reflexivity. Qed.
